@@ -10,6 +10,8 @@
     combined list, or on each page before it is concatenated);
  R5 empty listing -> None, propagated by get_versioned_results - which never dereferences the download (attribute, subscript, argument of
     a call) outside the 'is not None' path - and turned into "no handler" by the client;
+ R8 the window bounds handed to S3VersionUtil are the caller's timestamps, parsed and converted between timezones (same instant) - never
+    re-labelled with a timezone (unless tested to be bare) or shifted;
  R6 every sample-th listed version is requested; each frame is stamped, inside the loop that receives it together with its
     version, with that version's LastModified converted to the handler's timezone; request/return tuples keep version, buffer
     and future together;
@@ -26,6 +28,72 @@ from ..model import AnalysisError
 
 S3 = "elexmodel.handlers.s3"
 NONE = ("const", None)
+
+
+PARSERS = {"datetime.datetime.fromisoformat", "pandas.Timestamp", "pandas.to_datetime", "dateutil.parser.parse", "dateutil.parser.isoparse",
+           "datetime.datetime.strptime"}
+CONVERT = {"astimezone", "tz_convert", "to_pydatetime"}
+
+
+def _instant(t, bound, naive=False):
+    """Is `t` the instant the caller's bound `bound` names, carried through parsing and timezone CONVERSION only? -> (ok, why).
+    `.replace(tzinfo=..)` / `.tz_localize(..)` re-label a timestamp: harmless on a bare one, they move an aware one by its offset - accepted
+    only under a test that the value carries no timezone (naive=True on that branch). Arithmetic shifts the window."""
+    if t == bound:
+        return True, ""
+    k = t[0]
+    if k == "call" and t[1][0] == "global" and t[1][1] in PARSERS and t[2]:
+        return _instant(t[2][0], bound, naive)
+    if k == "call" and t[1][0] == "attr" and t[1][2] in CONVERT:
+        return _instant(t[1][1], bound, naive)
+    if k == "call" and t[1][0] == "attr" and t[1][2] in ("replace", "tz_localize"):
+        relabels = t[1][2] == "tz_localize" or any(k_ == "tzinfo" for k_, _ in t[3])
+        other = [k_ for k_, _ in t[3] if k_ not in ("tzinfo",) and not str(k_).startswith("#")]
+        if other or (t[1][2] == "replace" and t[2]):
+            return False, f"{ir.show(t, maxdepth=2)[:80]} changes fields of the timestamp"
+        if relabels and not naive:
+            return False, (f".{t[1][2]}({', '.join(k_ + '=..' for k_, _ in t[3])}) puts a timezone label on the parsed bound without testing that it has none: a "
+                           "bound given with its own UTC offset is moved by the difference of the offsets, and the window that is listed is not the one requested")
+        return _instant(t[1][1], bound, naive)
+    if k in ("phi", "ifexp"):
+        c = t[1]
+        isnaive = (c[0] == "cmp" and c[1] == "is" and c[3] == NONE and ((c[2][0] == "attr" and c[2][2] in ("tzinfo", "tz")) or
+                   (c[2][0] == "call" and c[2][1][0] == "attr" and c[2][1][2] == "utcoffset")))
+        a, wa = _instant(t[2], bound, naive or isnaive)
+        b_, wb = _instant(t[3], bound, naive)
+        return (a and b_), (wa or wb)
+    if k == "bin":
+        return False, f"arithmetic on the bound ({ir.show(t, maxdepth=2)[:80]}) shifts the window"
+    raise AnalysisError(f"window bound not understood: {ir.show(t, maxdepth=4)[:160]}")
+
+
+def _window_args(ctx, b):
+    """R8: the [start, end] window the version listing filters by is the caller's: each bound handed to S3VersionUtil is the caller's timestamp,
+    parsed and CONVERTED to another timezone (same instant), or None when the caller gave none."""
+    vd = ctx.fn("elexmodel.handlers.data.VersionedData", "VersionedDataHandler.__init__")
+    vs = b.summarize(vd)
+    ctor = None
+    for t_ in [w[2] for w in vs.attr_writes] + [t for _, _, t, _ in vs.assigns]:
+        for x in ir.walk(t_):
+            if x[0] == "call" and x[1][0] == "global" and x[1][1].endswith(":S3VersionUtil"):
+                ctor = x
+    ctx.sites("C19.R8", 1 if ctor else 0, 1, "construction of S3VersionUtil in VersionedDataHandler.__init__")
+    kw = dict((k, v) for k, v in ctor[3])
+    for i, which in ((1, "start_date"), (2, "end_date")):
+        t = kw.get(which, ctor[2][i] if len(ctor[2]) > i else None)
+        ctx.require(t is not None, f"{vd.where()}: S3VersionUtil is built without {which}")
+        bound = ("param", which)
+        # `<expr> if start_date else None` / phi on the bound's truthiness: the None branch is 'no bound'
+        val = t
+        if t[0] in ("phi", "ifexp") and t[1] == bound and t[3] == NONE:
+            val = t[2]
+        elif t[0] in ("phi", "ifexp") and t[1][0] == "cmp" and t[1][2] == bound and t[1][3] == NONE and t[1][1] in ("is not", "!="):
+            val = t[2]
+        elif t[0] in ("phi", "ifexp") and t[1][0] == "cmp" and t[1][2] == bound and t[1][3] == NONE and t[1][1] in ("is", "=="):
+            val = t[3]
+        ok, why = _instant(val, bound)
+        ctx.ob("C19.R8.window", f"{vd.qualname}|{which} reaches the listing as the instant the caller named", ok, vd.where(),
+               f"{which} is parsed and converted to UTC (same instant), or None" if ok else f"{which}: {why}")
 
 
 def _is_resp(t):
@@ -409,6 +477,7 @@ def check(ctx):
         oks = len(a) == 2 and a[1] == ("attr", ("param", "self"), "sample")
         ctx.ob("C19.R6.sample-arg", f"{vh.qualname}|sample forwarded", oks, vh.where(),
                "the handler's sampling step is passed to the download" if oks else "the handler's sampling step is not passed to S3VersionUtil.get")
+    _window_args(ctx, b)
     ge = ctx.fn("elexmodel.client", "ModelClient.get_estimates")
     # the handler handed to the model: under "get_versioned_results(..) is None" it must be None (any local naming)
     okc = False
